@@ -501,6 +501,8 @@ type c10Replay struct {
 	History []string `json:"history"`
 	Op      string   `json:"op"`
 	CrashK  int      `json:"crash_k"`
+	Family  string   `json:"family,omitempty"` // "": one channel per store; pFamily: several channels of one peer (c10_peer_test.go)
+	NChan   int      `json:"channels,omitempty"`
 }
 
 func names(all []op, h []int) []string {
@@ -592,7 +594,7 @@ func c10Search(t *testing.T, res *report.Result, v variant, deadline time.Time) 
 			cost += 1000 // prefer the counterexample in which the inconsistency arises
 		}
 		res.ViolateC("C10", f.sig, fmt.Sprintf("[%s, %s] %s\n  history: %v", v.Name, backend, f.detail, names(all, h)),
-			c10Replay{"store", "C10", v, backend, names(all, h), o.name, k}, cost)
+			c10Replay{"store", "C10", v, backend, names(all, h), o.name, k, "", 0}, cost)
 	}
 	for len(frontier) > 0 {
 		if !deadline.IsZero() && time.Now().After(deadline) {
@@ -638,11 +640,11 @@ func c10Search(t *testing.T, res *report.Result, v variant, deadline time.Time) 
 				}
 				if r.panicked != "" {
 					res.Violate("C10", "C10:panic:"+opKind(o.name), fmt.Sprintf("[%s] %s panicked: %s\n  history: %v", v.Name, o.name, r.panicked, names(all, h)),
-						c10Replay{"store", "C10", v, "memorydb", names(all, h), o.name, r.W})
+						c10Replay{"store", "C10", v, "memorydb", names(all, h), o.name, r.W, "", 0})
 				}
 				if r.err != nil && r.W > 0 {
 					res.Violate("C10", "C10:failed-op-wrote:"+opKind(o.name), fmt.Sprintf("[%s] %s returned %v but issued %d write boundaries\n  history: %v", v.Name, o.name, r.err, r.W, names(all, h)),
-						c10Replay{"store", "C10", v, "memorydb", names(all, h), o.name, r.W})
+						c10Replay{"store", "C10", v, "memorydb", names(all, h), o.name, r.W, "", 0})
 				}
 				res.Count("evaluations", 1)
 				if r.W > 0 {
@@ -728,17 +730,30 @@ func c10Run(t *testing.T, res *report.Result) {
 			break
 		}
 	}
+	// several channels of one peer on one store (c10_peer_test.go): 3 channels in the quick tier;
+	// thorough: 4 channels on memorydb and the 3 channel space again on LevelDB on disk
+	if exhaustive {
+		if !res.Thorough() {
+			exhaustive = pSearch(t, res, 3, []string{"memorydb"}, deadline)
+		} else {
+			exhaustive = pSearch(t, res, 4, []string{"memorydb"}, deadline) && pSearch(t, res, 3, []string{"leveldb"}, deadline)
+		}
+	}
 	res.Counters["traces_validated_against_impl"] = res.Counters["transitions"]
 	if exhaustive {
 		res.Extra["exhaustive"] = true
 	}
-	res.Extra["bound"] = "fixpoint over canonical states (machine state + canonical store digest) below the version cap of each variant (see notes); every transition x every write boundary"
+	res.Extra["bound"] = "fixpoint over canonical states (machine state + canonical store digest) below the version cap of each variant (see notes); every transition x every write boundary; plus the fixpoint over the states of 3 (thorough 4) channels of one peer on one store (status of each channel + canonical store digest), every operation x every write boundary"
 	if res.Thorough() {
 		res.Note("LevelDB: every boundary of every transition that writes; a refused operation issues no write boundary (checked on memorydb), so recovery has nothing to act on")
 	}
 }
 
 func c10ReplayRun(t *testing.T, res *report.Result, rp c10Replay) {
+	if rp.Family == pFamily {
+		pReplayRun(t, res, rp)
+		return
+	}
 	all := ops(rp.Variant)
 	byName := map[string]int{}
 	for i := range all {
